@@ -732,7 +732,10 @@ class TFLiteSupportedOperators:
                 valid = True
             else:
                 # Valid if OFM is 2/4/8x IFM (-1 for align corners)
-                if align_corners:
+                if align_corners and (ifm_shape_h == 1 or ifm_shape_w == 1):
+                    # a unit dimension cannot be upscaled with aligned corners; avoid dividing by zero
+                    h_upscale_factor = w_upscale_factor = 0
+                elif align_corners:
                     h_upscale_factor = (ofm_shape_h - 1) / (ifm_shape_h - 1)
                     w_upscale_factor = (ofm_shape_w - 1) / (ifm_shape_w - 1)
                 else:
